@@ -1,4 +1,5 @@
 HARNESSES = {
+    'ArcSegments': dict(mode='X', validate=0, oracle=8, inproc_ms=4000, ext_s=30, job_timeout_s=400, split={'large': 2, 'sweep': 2}, opts=dict(feas_timeout_ms=300, ifconv=False)),
     'Gate': dict(split={'hot': 4, 'width': 3, 'two': 2}),
     'Step': dict(split={'len': 6, 'mode': 2}, quick=dict(params={'W': 6}), thorough=dict(params={'W': 9}, split={'len': 9, 'mode': 2})),
     'Header': dict(split={'len': 9}, quick=dict(params={'W': 8}), thorough=dict(params={'W': 11}, split={'len': 12})),
@@ -8,6 +9,7 @@ HARNESSES = {
 }
 
 BOUNDS = {
+    'ArcSegments': 'exact-real reading, sin/cos/acos uninterpreted (range contracts only): one non-degenerate arc with every operand of magnitude up to 2^100, all flag combinations, fixed viewBox/raster: at most four rasteriser calls, all cubics; refutation by native-oracle witnesses of the input assumptions (cells at scales 2^-60..2^95)',
     'Step': 'one styling / drawing mode step on every window of 1..W arbitrary bytes (quick W=6, thorough W=9)',
     'Header': 'Decode, DecodeViewBox, Disassemble on every input of 0..W fully arbitrary bytes (quick W=8, thorough W=11), chunk counts/lengths up to 2^30 included',
     'Prefix': 'magic + L arbitrary bytes (quick 5, thorough 6), every cut point',
